@@ -20,6 +20,9 @@ def gen_desc(rng, auto=False, to_df=False, max_out=3):
             'constants': {d: INTERNAL[d] for d in via_const},
             'resources': {}, 'attrs': {}, 'auto': auto}
     if not any(dims) and not auto and rng.random() < 0.25: desc['leaf'] = 'str'
+    if auto:
+        # what the function returns: a Dataset, a plain dict of (dims, data) pairs, or (one variable) a named DataArray
+        desc['xr_form'] = rng.choice([True, True, 'dict'] + (['dataarray', 'dataarray'] if n_out == 1 else []))
     if rng.random() < 0.5: desc['constants']['k0'] = rng.choice([3, 'cc', 2.5])
     if rng.random() < 0.4: desc['resources']['big'] = 'R'
     if rng.random() < 0.4: desc['attrs']['note'] = rng.choice(['hello', 7])
@@ -69,7 +72,7 @@ def spell_var_dims(desc, rng):
 def make_fn(sw, desc):
     kind = kind_of(desc)
     if desc['auto']:
-        return sweeps.make_rec(sw, kind, as_xr=True, dims={n: ds for n, ds in zip(desc['names'], desc['dims'])})
+        return sweeps.make_rec(sw, kind, as_xr=desc.get('xr_form') or True, dims={n: ds for n, ds in zip(desc['names'], desc['dims'])})
     return sweeps.make_rec(sw, kind)
 
 
